@@ -377,7 +377,15 @@ def fold(node: ast.AST, env: Dict[str, Any]) -> Any:
                     raise _Unfoldable("**")
                 out2.update(sub)
             else:
-                out2[fold(k, env)] = fold(v, _SymEnv(env))
+                try:
+                    kk = fold(k, env)
+                except _Unfoldable:
+                    # a key that is a reference to a class / function (Union, list, datetime): kept symbolically
+                    if isinstance(k, (ast.Name, ast.Attribute)):
+                        kk = fold(k, _SymEnv(env))
+                    else:
+                        raise
+                out2[kk] = fold(v, _SymEnv(env))
         return out2
     if isinstance(node, ast.Call) and isinstance(node.func, ast.Name) and not node.keywords and _FOLD_FUNCS and node.func.id in _FOLD_FUNCS[-1] \
             and node.func.id not in env:
@@ -391,6 +399,12 @@ def fold(node: ast.AST, env: Dict[str, Any]) -> Any:
         sc = SymCall(f"struct.Struct({fold(node.args[0], env)!r})")
         sc.func = "struct.Struct"
         sc.args = (fold(node.args[0], env),)
+        return sc
+    if isinstance(node, ast.Call) and isinstance(node.func, ast.Name) and node.func.id == "type" and not dict.__contains__(env, "type") and len(node.args) == 1 \
+            and not node.keywords and isinstance(node.args[0], ast.Constant) and node.args[0].value is None and isinstance(env, _SymEnv):
+        sc = SymCall("type(None)")
+        sc.func = "type"
+        sc.args = (None,)
         return sc
     if isinstance(node, ast.Lambda) and isinstance(env, _SymEnv):
         sl = SymLambda(ast.unparse(node))
